@@ -1,8 +1,10 @@
 """Simulated cluster start/stop: REAL MechanicActor / Dispatcher / NodeMechanicActor / Mechanic (esrally/mechanic/mechanic.py)
 on SimActorSystem. Used by C12.
 
-A scenario is the record the Mechanic.tla model uses:
+A lifecycle configuration is the record the Mechanic.tla model uses:
   {"targets": [{"ip": 0|1|2, "port": 1|2}, ...], "ext": bool, "preserve": bool}
+A history is a sequence of lifecycle configurations served by ONE MechanicActor (StartEngine ... EngineStopped, then the next
+StartEngine on the same actor: "the mechanic might get reused later"); `scn` is the current one, `plan` the remaining ones.
 ip 0 = 127.0.0.1 (the coordinator's host, node actors created at once), ip k > 0 = remote host 10.5.5.k running its own Rally
 daemon (actor system) that joins / leaves the convention; port p = 9200 + p (p = 0: no port in --target-hosts, i.e. the default 9200).
 
@@ -20,7 +22,10 @@ Replaced by the harness (everything else is the code under test):
   * race control and the actor system's convention notifier are endpoints driven by the harness.
   * `sysstats.cpu_model` (0.2 s per call in telemetry.add_metadata_for_node) returns a constant.
 Decisions: ('deliver', src, dst[, outcome]) | ('wakeup', actor) | ('join', ip) | ('leave', ip) | ('rc', 'stop'|'reset0'|'reset1'|'teardown')
-           | ('proc', node id, 'early'|'late'|'stubborn')
+           | ('proc', node id, 'early'|'late'|'stubborn') | ('rc', 'restart')
+Reuse: ('rc', 'restart') is offered once EngineStopped has arrived and everything belonging to the finished lifecycle has drained
+(no message in flight, no pending wake-up of M, its node actors gone). Dispatchers of earlier lifecycles stay alive and idle (they
+are children of M); their ActorExitRequest at teardown is executed silently together with M's.
 """
 import datetime
 import os
@@ -81,9 +86,8 @@ class FakeRace:
 
 class MechWorld:
     M = "M1"
-    D = "D1"
 
-    def __init__(self, scn, initial_up=()):
+    def __init__(self, scn, initial_up=(), plan=()):
         racesim.ensure_rally_home()
         import psutil
 
@@ -92,28 +96,23 @@ class MechWorld:
         from esrally.utils import console, sysstats
 
         console.init(quiet=True, assume_tty=False)
-        self.scn = scn
         self.mechanic_mod = mechanic
-        self.ents, self.ids = entries_of(scn)
-        self.n_nodes = len(scn["targets"])
+        self.config_mod = config
+        self.plan = [dict(x) for x in plan]
+        self.cyc = 0
+        self.old_ds = set()
+        self.D = None  # name of the Dispatcher created in the current lifecycle
+        self.inbox_start = 0
         self.clock = VirtualClock()
         _world_counter[0] += 1
         self.root = os.path.join(tlc.scratch("mechsim"), "w%d" % _world_counter[0])
         os.makedirs(self.root, exist_ok=True)
-        # observations (the property's observation point)
-        self.nd = [{"starts": 0, "stops": 0, "term": 0, "kills": 0, "sysm": 0, "stored": 0, "dir": None, "proc": "alive"} for _ in range(self.n_nodes)]
-        self.procs = 0  # number of node processes the environment has put into a condition other than alive
-        self.flushes = {}  # (ipstr, port) -> number of flush(refresh=True)
         self.calls = []  # (what, node/host) in call order
         self.next_outcome = "ok"
         self.up = set(initial_up)
-        self.left = set()
-        self.fault = "none"
-        self.stop_sent = False
-        self.resets = 0
         self.torn = False
-        self.names = {}  # actor name -> entry index (1-based)
         self._patches = []
+        self._begin_lifecycle(scn)
         world = self
 
         PID0 = 1000
@@ -172,7 +171,7 @@ class MechWorld:
                 self_.node_id = node_id
 
             def prepare(self_, binaries):
-                d = os.path.join(world.root, "node%d" % self_.node_id)
+                d = os.path.join(world.root, "c%d" % world.cyc, "node%d" % self_.node_id)
                 install = os.path.join(d, "install")
                 data = os.path.join(install, "data")
                 os.makedirs(data, exist_ok=True)
@@ -237,10 +236,42 @@ class MechWorld:
         self.sim.registration_hook = self._on_registration
         self.sim.endpoint("rc")
         self.sim.endpoint("sys")
-        self.cfg = self._build_config(config)
         self.sim.create(mechanic.MechanicActor, parent=None, name=self.M)
+        self._send_start_engine()
+
+    # ---- lifecycles
+    def _begin_lifecycle(self, scn):
+        self.scn = scn
+        self.cyc += 1
+        self.ents, self.ids = entries_of(scn)
+        self.n_nodes = len(scn["targets"])
+        # observations (the property's observation point), per lifecycle
+        self.nd = [{"starts": 0, "stops": 0, "term": 0, "kills": 0, "sysm": 0, "stored": 0, "dir": None, "proc": "alive"} for _ in range(self.n_nodes)]
+        self.procs = 0  # number of node processes the environment has put into a condition other than alive
+        self.flushes = {}  # (ipstr, port) -> number of flush(refresh=True)
+        self.left = set()
+        self.fault = "none"
+        self.stop_sent = False
+        self.resets = 0
+        self.names = {}  # actor name -> entry index (1-based)
+        if self.D is not None:
+            self.old_ds.add(self.D)
+        self.D = None
+
+    def _send_start_engine(self):
+        mechanic = self.mechanic_mod
+        scn = self.scn
+        self.cfg = self._build_config(self.config_mod)
         ctx = {"race-id": "verif-race", "race-timestamp": "20260101T000000Z", "track": "verif", "challenge": "c", "car": ["verif-car"]}
         self.sim.send("rc", self.M, mechanic.StartEngine(self.cfg, ctx, False, not scn["ext"], bool(scn["ext"]), False))
+
+    def drained(self):
+        """Nothing of the current lifecycle is left: no message in flight, no wake-up of M pending, its node actors gone."""
+        if any(q for q in self.sim.chan.values()):
+            return False
+        if self.sim.pending_timers(self.M):
+            return False
+        return not any(self.alive(n) for n in self.names)
 
     # ---- set-up helpers
     def _build_config(self, config):
@@ -292,7 +323,7 @@ class MechWorld:
                 self.sim.send("sys", name, self._conv(ip, True))
 
     def listening(self):
-        return bool(self.sim.registration_listeners.get(self.D)) and self.alive(self.D)
+        return self.D is not None and bool(self.sim.registration_listeners.get(self.D)) and self.alive(self.D)
 
     # ---- access to the real objects
     def exists(self, name):
@@ -305,7 +336,8 @@ class MechWorld:
         return self.sim.actors[name].instance
 
     def rc_inbox(self):
-        return [type(m).__name__ for _, m in self.sim.endpoints["rc"].inbox]
+        """What race control has received in the current lifecycle."""
+        return [type(m).__name__ for _, m in self.sim.endpoints["rc"].inbox[self.inbox_start :]]
 
     def remote_targets(self):
         return sorted({ip for ip, _ in self.ents if ip != 0})
@@ -315,8 +347,13 @@ class MechWorld:
         return self.ents.index(key) + 1
 
     def discover(self):
-        """Which NodeMechanicActor serves which (ip, port): read from the Dispatcher's pending list and its StartNodes messages."""
-        if not self.exists(self.D):
+        """The Dispatcher of the current lifecycle, and which NodeMechanicActor serves which (ip, port): read from the Dispatcher's
+        pending list and its StartNodes messages."""
+        if self.D is None:
+            for name, rec in self.sim.actors.items():
+                if rec.cls.__name__ == "Dispatcher" and name not in self.old_ds:
+                    self.D = name
+        if self.D is None:
             return
         d = self.inst(self.D)
         for addr, sub in d.pending or []:
@@ -344,6 +381,8 @@ class MechWorld:
             res.append(("rc", "stop"))
         if not self.torn and (failed or stopped):
             res.append(("rc", "teardown"))
+        if self.plan and stopped and not failed and not self.torn and self.alive(self.M) and self.drained():
+            res.append(("rc", "restart"))
         return res, (started and not failed and not self.stop_sent and not self.torn)
 
     def running_nodes(self):
@@ -359,6 +398,8 @@ class MechWorld:
     def enabled(self, faults=True, max_resets=1, max_procs=2):
         res = []
         for dec in self.sim.enabled():
+            if dec[0] == "deliver" and dec[2] in self.old_ds:
+                continue  # idle dispatchers of earlier lifecycles: their exit is executed together with M's
             if dec[0] == "deliver":
                 head = self.sim.chan[(dec[1], dec[2])][0]
                 if type(head).__name__ == "StartNodes":
@@ -405,7 +446,7 @@ class MechWorld:
         """(action name of Mechanic.tla, int argument, string argument)"""
         kind = dec[0]
         if kind == "rc":
-            return {"stop": ("RcStop", 0, ""), "reset0": ("RcReset", 0, ""), "reset1": ("RcReset", 1, ""), "teardown": ("RcTeardown", 0, "")}[dec[1]]
+            return {"stop": ("RcStop", 0, ""), "reset0": ("RcReset", 0, ""), "reset1": ("RcReset", 1, ""), "teardown": ("RcTeardown", 0, ""), "restart": ("RcRestart", 0, "")}[dec[1]]
         if kind == "join":
             return ("RemoteJoins", dec[1], "")
         if kind == "leave":
@@ -462,6 +503,10 @@ class MechWorld:
             elif dec[1] in ("reset0", "reset1"):
                 self.sim.send("rc", self.M, mech.ResetRelativeTime(0 if dec[1] == "reset0" else 5))
                 self.resets += 1
+            elif dec[1] == "restart":
+                self.inbox_start = len(self.sim.endpoints["rc"].inbox)
+                self._begin_lifecycle(self.plan.pop(0))
+                self._send_start_engine()
             else:
                 self.sim.send("rc", self.M, ta.ActorExitRequest())
                 self.torn = True
@@ -491,6 +536,10 @@ class MechWorld:
                 self.sim.step(dec[:3] if kind == "deliver" else dec)
             finally:
                 self.next_outcome = "ok"
+            # M has exited: the idle dispatchers of earlier lifecycles exit with it
+            for old in sorted(self.old_ds):
+                while (self.M, old) in self.sim.chan and self.alive(old):
+                    self.sim.step(("deliver", self.M, old))
         self.discover()
         return ev
 
@@ -566,6 +615,7 @@ class MechWorld:
         st = self._state(d2n, n2m, m2n, n2d, mech, disp, na, nd, ho)
         # messages travelling between pairs of actors the model has no channel for (must be none)
         st["other"] = sum(len(q) for key, q in sim.chan.items() if key not in self._projected)
+        st["plan"] = [dict(x) for x in self.plan]
         return st
 
     def _state(self, d2n, n2m, m2n, n2d, mech, disp, na, nd, ho):
@@ -586,5 +636,5 @@ class MechWorld:
             "na": na,
             "nd": nd,
             "ho": ho,
-            "env": {"up": sorted(self.up), "left": sorted(self.left), "fault": self.fault, "stopSent": self.stop_sent, "resets": self.resets, "torn": self.torn, "procs": self.procs},
+            "env": {"up": sorted(self.up), "left": sorted(self.left), "fault": self.fault, "stopSent": self.stop_sent, "resets": self.resets, "torn": self.torn, "procs": self.procs, "cyc": self.cyc},
         }
